@@ -50,6 +50,9 @@ type termer struct {
 	depth    int
 	phis     map[*ssa.Phi]bool
 	noSuffix bool
+	// ctx is the block of the instruction whose operand is being rendered: a phi that a guard
+	// dominating ctx pins to one incoming edge (resolveUnderGuards) is rendered as that edge
+	ctx *ssa.BasicBlock
 }
 
 // Distinct phis of one function can have the same structural term (every `for i := range x`
@@ -137,6 +140,16 @@ func (t *termer) val(v ssa.Value) string {
 	defer func() { t.depth-- }()
 	if t.depth > 40 {
 		return "…"
+	}
+	if ph, isPhi := v.(*ssa.Phi); isPhi && t.ctx != nil && !t.noSuffix {
+		if r := resolveUnderGuards(ph, t.ctx); r != v {
+			return t.val(r)
+		}
+	}
+	if in, isIn := v.(ssa.Instruction); isIn && in.Block() != nil {
+		saved := t.ctx
+		t.ctx = in.Block()
+		defer func() { t.ctx = saved }()
 	}
 	switch x := v.(type) {
 	case *ssa.Parameter:
@@ -375,6 +388,14 @@ func Lit(cond ssa.Value, pol bool) string {
 			return "true"
 		}
 		return "false"
+	}
+	// operands are rendered in the context of the block that evaluates the condition
+	Term := func(v ssa.Value) string {
+		t := &termer{phis: map[*ssa.Phi]bool{}}
+		if in, ok := cond.(ssa.Instruction); ok {
+			t.ctx = in.Block()
+		}
+		return t.val(v)
 	}
 	if b, ok := cond.(*ssa.BinOp); ok {
 		op := b.Op
